@@ -201,14 +201,8 @@ class HCreateSolution(Handler):
                 cond = 32 * 2.3e-16 * max(amounts) / max(abs(res.contents.get(s, 0.0)), q)
                 rel_tol = K * (R.conc_quantum(cval) / cval + storage_rel) + 1e-8 + overdet + cond
                 ok = M.ratio('SOLN.conc', got, cval, rel_tol * cval)
-                if not ok and solvent_holds_solute:
-                    # the stated concentration may be read as "of the solute added"; three-valued
-                    added = res.contents.get(s, 0.0) - _aliquot_amount(solvent, solv_after, s)
-                    alt = R.canon(s, added) * R.per(s, num) / max(R.measure(res.contents, den), 1e-300)
-                    if abs(alt - cval) <= rel_tol * cval * 10:
-                        M.count('SOLN.conc_met_only_for_added_solute')
-                        M.bucket('C05/solvent_holds_solute/concentration_of_added_solute_only')
-                        ok = True
+                # (a solvent container that already holds the solute: the stated concentration is that of the returned solution
+                # as a whole - a reading "of the solute added only" was tolerated here until the round-9 hunt showed what it hid)
                 if not ok:
                     M.violate(['C05', 'C14'], 'SOLN', f'C05:concentration_not_met:{num}/{den}:{R.kind(s)}:{skind}',
                               {'concentration': cstr, 'solute': s.name, 'target': cval, 'unit': f'{num}/{den}',
@@ -225,10 +219,6 @@ class HCreateSolution(Handler):
                 cond = 32 * 2.3e-16 * max(amounts) / max(abs(res.contents.get(s, 0.0)), q)
                 tol = K * (abs(R.stored_quantum_in(s, qb)) * 2 + H1.request_quantum(qb)) + (1e-8 + overdet + cond) * abs(qv)
                 ok = M.ratio('SOLN.quantity', got_total, qv, tol)
-                if not ok and solvent_holds_solute:
-                    added = res.contents.get(s, 0.0) - _aliquot_amount(solvent, solv_after, s)
-                    if abs(R.canon(s, added) * R.per(s, qb) - qv) <= tol * 10:
-                        ok = True
                 if not ok:
                     M.violate(['C05'], 'SOLN', f'C05:solute_quantity_not_met:{qb}:{R.kind(s)}:{skind}',
                               {'quantity': qstr, 'solute': s.name, 'target': qv, 'unit': qb, 'got': got_total,
